@@ -37,7 +37,8 @@ func main() {
 	run.Assumptions = []string{
 		"CloseProxy has no reply in the protocol: a following Ping/Pong on the same session is used as acknowledgement",
 		"a session drop is acknowledged when the run id has left the server's session table (verif snapshot), bounded by 20 s",
-		"operations on the same proxy name and operations on the same tcp group are issued one at a time (a failing duplicate registration legitimately holds a port for a moment; join concurrent with last leave is C13's subject and crashes the unfixed tree), everything else is concurrent",
+		"operations on the same proxy name are issued one at a time (a failing duplicate registration legitimately holds a port for a moment; name contention is C12's subject), everything else is concurrent",
+		"an acknowledged registration is two steps of the reference allocator inside its call/return interval (accounting, then listen): the server acquires first and listens later, other programs and probes can see the port unbound in between; a registration refused with a listen error is acquisition plus undo (legal only while another program holds the port named in the error); other refusals are one step",
 		"a refused request for a server-chosen port is tolerated while at least one free allowed port is held by another program (the server chooses first and listens later, and its search is bounded to 5 candidates)",
 		"which sockets the server has bound is read from /proc/net/{tcp,udp} filtered by this process's socket inodes",
 	}
